@@ -16,7 +16,7 @@ LEVEL = ("Generated-input exploration over feature/target widths (smaller, equal
          "competitor maps per case, and to recover planted (semi-)orthogonal maps exactly. "
          "No absence claim: strength = the counted distinct non-trivial cases in the evidence.")
 BUDGET = {"quick": 1200, "thorough": 50000}
-RULE = ("Cases: n in max(f,g)+2..24 samples (thorough 60), f and g in 1..6, X normal (optionally with column scales), y either a noisy "
+RULE = ("Cases: n in max(f,g)+2..24 samples (thorough 60), f and g in 1..6, X normal (optionally with column scales; a quarter of the cases uncentred: positive features and, unless planted, a strongly negative target offset), y either a noisy "
         "linear function of X or exactly X Q for a drawn (semi-)orthogonal Q; modes padded / projector; linear estimator default, "
         "LinearRegression(no intercept) or Ridge(alpha in {1e-10, 1, 50}); competitors: 8 random orthogonal matrices and 6 small "
         "rotations (1e-2, 1e-3) of the fitted solution.  Non-trivial: f != g or a planted orthogonal map; distinct = SHA-1 of the "
@@ -36,6 +36,9 @@ def strategy_(draw, tier):
     X = gen.normal(draw, (n, f))
     if draw(st.booleans()):
         X = X * np.exp(gen.normal(draw, (f,)))
+    offsets = draw(st.integers(0, 3)) == 0
+    if offsets:
+        X = X + 2.0 + np.abs(gen.normal(draw, (f,)))          # uncentred data: positive features ...
     planted = draw(st.booleans())
     if planted:
         if f >= g:
@@ -45,8 +48,10 @@ def strategy_(draw, tier):
         y = X @ Q
     else:
         y = X @ gen.normal(draw, (f, g)) + draw(st.sampled_from([0.0, 0.3, 2.0])) * gen.normal(draw, (n, g))
+        if offsets:
+            y = y - y.mean(0) - 3.0 * (1.0 + np.abs(y).max())    # ... and a strongly negative target offset (the sign of the map matters)
     return {"X": X, "y": y, "planted": planted, "projector": draw(st.booleans()),
-            "estimator": draw(st.sampled_from(["default", "lr_noint", "ridge", "ridge1", "ridge50"])),
+            "estimator": draw(st.sampled_from(["default", "lr_noint", "ridge", "ridge1", "ridge50"])), "offsets": offsets,
             "Xnew": gen.normal(draw, (5, f)) * draw(st.sampled_from([0.1, 1.0, 30.0])), "cseed": draw(gen.SEEDS),
             "prior_use": draw(st.booleans()), "np_flag": draw(st.integers(0, 3)) == 0}
 
@@ -76,7 +81,7 @@ def check(case, ctx):
     n, f = X.shape
     g = y.shape[1]
     ctx.cls("mode=%s" % ("projector" if proj else "padded"), "f%sg" % ("<" if f < g else "=" if f == g else ">"),
-            "planted=%s" % case["planted"], "estimator=" + case["estimator"])
+            "planted=%s" % case["planted"], "estimator=" + case["estimator"], "offsets=%s" % bool(case.get("offsets")))
     def mk_est():
         return {"default": None, "lr_noint": LinearRegression(fit_intercept=False), "ridge": Ridge(alpha=1e-10, fit_intercept=False),
                 "ridge1": Ridge(alpha=1.0, fit_intercept=False), "ridge50": Ridge(alpha=50.0, fit_intercept=True)}[case["estimator"]]
